@@ -442,6 +442,7 @@ func c22First(tA string, pA int32, nA int, tB string, pB int32, nB int, mode str
 func verifC22Main() {
 	w := bufio.NewWriter(os.Stdout)
 	defer w.Flush()
+	defer c22dStop() // embedded etcd of the `delfam` op (zz_verif_c22_delfam.go), started on first use
 	sc := bufio.NewScanner(os.Stdin)
 	sc.Buffer(make([]byte, 1<<16), 1<<22)
 	unhx := func(s string) (string, bool) {
@@ -454,6 +455,11 @@ func verifC22Main() {
 	for sc.Scan() {
 		f := strings.Fields(sc.Text())
 		if len(f) == 0 || strings.HasPrefix(f[0], "#") {
+			continue
+		}
+		if f[0] == "delfam" { // delete-selector scenario on both real stores (zz_verif_c22_delfam.go)
+			fmt.Fprintln(w, c22dDelFam(f))
+			w.Flush()
 			continue
 		}
 		if f[0] != "first" { // key-constructor / acceptance ops (zz_verif_c22_keys.go)
